@@ -348,31 +348,9 @@ func (pConn *PFCPConn) handleSessionModificationRequest(msg message.Message) (me
 		addQERs = append(addQERs, q)
 	}
 
-	// only the QERs created by this message may become the session QER
-	session.MarkSessionQer(addQERs[:len(smreq.CreateQER)])
-	// FIXME: since PacketForwardingRules doesn't store pointers,
-	//  we must also mark session QERs in addQERs.
-	//  We need a kind of refactoring to clean it up.
-	session.syncQosLevel(addQERs)
-
-	updated := PacketForwardingRules{
-		pdrs: addPDRs,
-		fars: addFARs,
-		qers: addQERs,
-	}
-
-	cause := upf.SendMsgToUPF(upfMsgTypeMod, session.PacketForwardingRules, updated)
-	if cause == ie.CauseRequestRejected {
-		return sendError(ErrWriteToDatapath)
-	}
-
-	if upf.enableEndMarker {
-		err := upf.SendEndMarkers(&endMarkerList)
-		if err != nil {
-			logger.PfcpLog.Errorln("sending End Markers Failed:", err)
-		}
-	}
-
+	// Apply the removals to the session before anything is written to the datapath: a Remove
+	// IE that names an unknown rule rejects the request as a whole, and must not do so after
+	// the created and updated rules have already been programmed.
 	delPDRs := make([]pdr, 0, MaxItems)
 	delFARs := make([]far, 0, MaxItems)
 	delQERs := make([]qer, 0, MaxItems)
@@ -417,6 +395,31 @@ func (pConn *PFCPConn) handleSessionModificationRequest(msg message.Message) (me
 		}
 
 		delQERs = append(delQERs, *q)
+	}
+
+	// only the QERs created by this message may become the session QER
+	session.MarkSessionQer(addQERs[:len(smreq.CreateQER)])
+	// FIXME: since PacketForwardingRules doesn't store pointers,
+	//  we must also mark session QERs in addQERs.
+	//  We need a kind of refactoring to clean it up.
+	session.syncQosLevel(addQERs)
+
+	updated := PacketForwardingRules{
+		pdrs: addPDRs,
+		fars: addFARs,
+		qers: addQERs,
+	}
+
+	cause := upf.SendMsgToUPF(upfMsgTypeMod, session.PacketForwardingRules, updated)
+	if cause == ie.CauseRequestRejected {
+		return sendError(ErrWriteToDatapath)
+	}
+
+	if upf.enableEndMarker {
+		err := upf.SendEndMarkers(&endMarkerList)
+		if err != nil {
+			logger.PfcpLog.Errorln("sending End Markers Failed:", err)
+		}
 	}
 
 	deleted := PacketForwardingRules{
